@@ -5284,3 +5284,48 @@ def rt7(ctx):
     if n < 1:
         raise AnchorMissing("RT-7: no string search on the output buffer found in Word::render")
     return r
+
+
+# ---------------------------------------------------------------- TAB-15: a syntax sign is not an IPA letter
+
+def tab15(ctx):
+    """The rule lexer tries get_special_char before get_ipa. A character that get_special_char (or get_bracket) claims as
+    a syntax sign can therefore never be written as a segment again: accepting `ø` as a spelling of `∅` turns the rule
+    `ø > e / _t` into the insertion `∅ > e / _t`. The characters those functions match are disjoint from the characters
+    of the base phones (src/cardinals.json) and of the diacritics -- in both lexers."""
+    r = RuleResult("TAB-15", "the characters Lexer / AliasLexer::get_special_char and get_bracket match as syntax signs are not characters of any base phone or diacritic", floor=4)
+    lib = ctx.lib
+    cj = json.loads(ctx.read("src/cardinals.json"))
+    dj = json.loads(ctx.read("src/diacritics.json"))
+    ipa = set()
+    for k in cj:
+        ipa |= set(k)
+    ipa |= {d["diacrit"] for d in dj}
+    n = 0
+    for path in ("asca::lexer::Lexer::get_special_char", "asca::lexer::Lexer::get_bracket", "asca::alias::lexer::AliasLexer::get_special_char", "asca::alias::lexer::AliasLexer::get_bracket"):
+        b = lib.body(path)
+        if b is None or not b.hir:
+            continue
+        n += 1
+        signs = set()
+        for m in hirq.matches(b):
+            for arm in m["arms"]:
+                for q in hirq.walk_pats(arm["pat"]):
+                    if q.get("p") == "lit" and q.get("lk") == "char":
+                        signs.add(q["lit"])
+        for y in hirq.walk(b.hir["body"]):
+            if y["e"] == "binary" and y["op"] in ("Eq", "Ne"):
+                for side in (y["a"], y["b"]):
+                    s0 = hirq.strip(side)
+                    if s0.get("e") == "lit" and s0.get("lk") == "char":
+                        signs.add(s0["lit"])
+        clash = sorted(c for c in signs if c in ipa)
+        short = path.rsplit("::", 2)[-2] + "::" + path.rsplit("::", 1)[-1]
+        r.inst("%s: %d syntax signs, none of them an IPA character" % (short, len(signs)), fn_loc(b), "ok" if not clash else "report")
+        if clash:
+            r.report("TAB-15|%s|%s" % (short, "".join(clash)), fn_loc(b), path,
+                     "%s treats %s as a syntax sign, but %s a character of the base-phone / diacritic tables: the sign is lexed first, so that phone can no longer be written in a rule -- `ø > e / _t` becomes the insertion `∅ > e / _t` and inserts `e` before every `t` of a word that has no ø"
+                     % (short, " ".join("`%s`" % c for c in clash), "it is" if len(clash) == 1 else "they are"))
+    if n < 2:
+        raise AnchorMissing("TAB-15: get_special_char / get_bracket of the two lexers not found")
+    return r
